@@ -437,11 +437,22 @@ NLib(e, meta) == IF e.cmd = "import-seg" THEN Len(M(meta, In1(e)[1]).sids)
 (* Where the output of a command goes.  "file": tabio.write / write_dataframe / write_text open    *)
 (* the path for writing (an existing file is replaced); "stdout": `outfname or sys.stdout`.        *)
 (* (target, access, genemetrics, breaks, bintest, metrics, sex, export bed/vcf/seg have no default name: stdout) *)
-(* default names: reference "cnv_reference.cnn"; fix <sample_id>.cnr; segment <sample_id>.cns;     *)
+(* default names: reference "cnv_reference.cnn"; antitarget <targets>.antitarget.<ext>;            *)
+(* fix <sample_id>.cnr; segment <sample_id>.cns;                                                   *)
 (* call <sample_id>.call.cns; segmetrics <sample_id of -s>.segmetrics.cns;                         *)
 (* import-seg <output_dir>/<sid>.cns for each sample of the SEG file                               *)
+(* Defects found by this module and repaired in /repo; a name listed here switches the A-layer back to the     *)
+(* behaviour before the repair (kept as documentation of what the check reported; empty on the current tree):  *)
+(*   "AntitargetNoOutput"  (30a3671) antitarget without -o read args.interval -> AttributeError                *)
+(*   "FlatRefIgnoresParx"  (424f1ad) reference -t ... did not pass --diploid-parx-genome to do_reference_flat   *)
+(*   "NestedNewDir"        (75edcfc) tabio.safe_write used os.mkdir: -o a/b/x with a missing -> FileNotFoundError*)
+LegacyDefects == {}
+(* antitarget (since 30a3671): base, ext = args.targets.rsplit(".", 1); base + ".antitarget." + ext -- next to   *)
+(* the targets file (the directory is part of `base`)                                                          *)
 DefaultN(e, meta) ==
     CASE e.cmd = "reference" -> <<"cnv_reference", "cnn">>
+      [] e.cmd = "antitarget" /\ "AntitargetNoOutput" \notin LegacyDefects /\ Len(M(meta, In1(e)[1]).n) >= 2 ->
+            LET n == M(meta, In1(e)[1]).n IN Front1(n) \o <<"antitarget", Last1(n)>>
       [] e.cmd = "fix" -> (IF Has(e, "sample_id") THEN <<Opt(e, "sample_id")>> ELSE FBase(M(meta, In1(e)[1]).n)) \o <<"cnr">>
       [] e.cmd = "segment" -> FBase(M(meta, In1(e)[1]).n) \o <<"cns">>
       [] e.cmd = "call" -> FBase(M(meta, In1(e)[1]).n) \o <<"call", "cns">>
@@ -477,7 +488,8 @@ OutFiles(e, meta) ==
              d == IF e.osel = "default" THEN "" ELSE e.oname IN          \* os.path.join(".", ...) -> same file
          [k \in 1..Len(sids) |-> OutMeta(e, meta, d, <<sids[k], "cns">>, k)]
     ELSE IF e.osel = "default"
-         THEN (IF DefaultN(e, meta) = <<>> THEN <<>> ELSE <<OutMeta(e, meta, "", DefaultN(e, meta), 1)>>)
+         THEN (IF DefaultN(e, meta) = <<>> THEN <<>>
+               ELSE <<OutMeta(e, meta, IF e.cmd = "antitarget" THEN M(meta, In1(e)[1]).d ELSE "", DefaultN(e, meta), 1)>>)
     ELSE IF e.osel = "clash" THEN <<[OutMeta(e, meta, M(meta, e.oname).d, M(meta, e.oname).n, 1) EXCEPT !.name = e.oname]>>
     ELSE <<OutMeta(e, meta, OutDir(e.osel), ExplicitN(e), 1)>>
 (* core.ensure_path: "If a file already exists at the given path, it is renamed with an integer     *)
@@ -495,13 +507,17 @@ UsesEnsurePath(cmd) == cmd = "reference"
 WrapperErr(e, meta) ==
     LET d == IF e.cmd = "import-seg" THEN (IF e.osel = "default" THEN "" ELSE e.oname)
              ELSE IF e.osel \in {"sub", "deep"} THEN OutDir(e.osel) ELSE "" IN
-    CASE e.cmd = "antitarget" /\ e.osel = "default" -> "AttributeError"          \* args.interval does not exist
+    CASE e.cmd = "antitarget" /\ e.osel = "default" /\ "AntitargetNoOutput" \in LegacyDefects
+            -> "AttributeError"                                                  \* before 30a3671: args.interval does not exist
       [] e.cmd = "access" /\ ~DirExists(meta, d) -> "SystemExit"                  \* argparse.FileType("w") at parse time
-      [] e.cmd # "access" /\ ~UsesEnsurePath(e.cmd) /\ Produces(e) /\ ~DirExists(meta, d) /\ ~DirExists(meta, ParentDir(d))
-            -> "FileNotFoundError"                                               \* safe_write: os.mkdir, one level only
+      [] "NestedNewDir" \in LegacyDefects /\ e.cmd # "access" /\ ~UsesEnsurePath(e.cmd) /\ Produces(e)
+              /\ ~DirExists(meta, d) /\ ~DirExists(meta, ParentDir(d))
+            -> "FileNotFoundError"                                               \* before 75edcfc: safe_write used os.mkdir (one level)
       [] OTHER -> ""
-(* the wrapper does not make the documented call: reference (flat) drops --diploid-parx-genome      *)
-WiringDiffers(e) == e.cmd = "reference" /\ e.mode = "flat" /\ Has(e, "diploid_parx_genome") /\ Has(e, "male_reference")
+(* the wrapper does not make the documented call -- before 424f1ad: reference (flat) dropped         *)
+(* --diploid-parx-genome (visible with -y and chrX bins inside the PAR); nothing of the kind now     *)
+WiringDiffers(e) == "FlatRefIgnoresParx" \in LegacyDefects
+                    /\ e.cmd = "reference" /\ e.mode = "flat" /\ Has(e, "diploid_parx_genome") /\ Has(e, "male_reference")
 (* pyfaidx writes <fasta>.fai next to the genome on first use (get_fasta_stats): flat `if fa_fname`,         *)
 (* pooled `if fa_fname and (fix_rmask or fix_gc)`                                                         *)
 SideFiles(e, fs) == IF e.cmd = "reference" /\ e.mode \in {"flat", "pooled"} /\ Len(In3(e)) > 0 /\ ~Exists(fs, In3(e)[1] \o ".fai")
@@ -610,13 +626,15 @@ Holds(c, pre, meta, e, o) ==
             (* the files named as inputs in the usage line are only read *)
             \A nm \in Inputs(e) : Get(o.post, nm) = Get(pre, nm) /\ nm \notin o.w
       [] OTHER -> FALSE
-(* known defects (characterised on the command line, as narrowly as possible) *)
-KnownTriggers == {"AntitargetNoOutput", "NestedNewDir", "FlatRefIgnoresParx"}
-TriggerHolds(t, e, meta) ==
+(* known defects of the command layer: none open.  The three repaired ones (LegacyDefects above) were        *)
+(* characterised by these predicates; they are no longer exempt -- if one returns it is a plain violation.    *)
+KnownTriggers == {}
+RepairedTrigger(t, e, meta) ==
     CASE t = "AntitargetNoOutput" -> e.cmd = "antitarget" /\ e.osel = "default"
       [] t = "NestedNewDir" -> e.osel = "deep" /\ e.cmd \notin {"reference", "access"} /\ ~DirExists(meta, "a")
-      [] t = "FlatRefIgnoresParx" -> WiringDiffers(e)
+      [] t = "FlatRefIgnoresParx" -> e.cmd = "reference" /\ e.mode = "flat" /\ Has(e, "diploid_parx_genome") /\ Has(e, "male_reference")
       [] OTHER -> FALSE
+TriggerHolds(t, e, meta) == FALSE
 (* A-layer agreement: the observed directory is the one Effect predicts *)
 Agrees(pre, meta, e, o) ==
     LET x == Effect(pre, meta, e, o.lib, o.liberr) IN
